@@ -168,7 +168,7 @@ func (b *c05Backend) Keys() (out []string) {
 
 func TestPropPruneKeepsLiveState(t *testing.T) {
 	defer lib.Flush()
-	opt := model.GenOpt{Modes: []string{"sync", "sync", "bg"}, Jumps: true, MaxOps: 40,
+	opt := model.GenOpt{Modes: []string{"sync", "bg"}, Jumps: true, MaxOps: 40,
 		AvoidRoot: lib.Known(model.FindRoot), AvoidStale: lib.Known(model.FindStale), AvoidLeaf: lib.Known(model.FindLeaf)}
 	rapid.Check(t, func(t *rapid.T) {
 		c := model.Gen(t, opt)
